@@ -290,11 +290,12 @@ def sweep_lines(w, counts, rng, tier):
 SHAPES = {"comp": "RALocalAllocator::init", "compbig": "RALocalAllocator::init", "compcf": "RALocalAllocator::init"}
 
 
-def shape_requests(h, w):
+def shape_requests(h, w, needle=None):
     """ordinals of the arena requests made inside the function named in SHAPES (symbolised call stacks)"""
     if w not in SHAPES:
         return []
-    out, rc, err = vlib.run_lines([str(h)], ["where %s %s" % (w, SHAPES[w])])
+    needle = needle or SHAPES[w]
+    out, rc, err = vlib.run_lines([str(h)], ["where %s %s" % (w, needle)])
     m = re.search(r" k=([\d,]*)$", out[0]) if out else None
     return [int(x) for x in m.group(1).split(",") if x] if m else []
 
@@ -316,6 +317,13 @@ def run_workload(res, h, w, rng, tier, dist):
         if not must:
             res.violation("the workload %s no longer reaches %s (generator shape lost)" % (w, SHAPES[w]), {"ops": ["where %s %s" % (w, SHAPES[w])]},
                           found_input=False, key="corr")
+    if w in SHAPES:
+        # a register's home slot whose creation fails is created again on the next spill: only a SECOND failure shortly
+        # afterwards reaches the code that needs the slot - pairs (k, k + d) for every request of `_create_stack_slot`
+        slots = shape_requests(h, w, "_create_stack_slot")
+        dist["shapes"]["%s: arena requests inside _create_stack_slot" % w] = len(slots)
+        for k in slots:
+            lines += ["fault %s arena %d %d" % (w, k, k + d) for d in range(1, 13)]
     if w == "jitdual":
         dist["shapes"]["jitdual: vm requests (memfd_create, ftruncate, 2 x mmap per block)"] = c["vm"]
     if w == "arenahist":
